@@ -94,7 +94,7 @@ pub fn channels_agree(o: &CheckObs, codes: &[String], what: &str) -> Result<(), 
     let exit_ok = o.status == Some(0);
     let has_err = !o.diags.is_empty();
     match o.status {
-        Some(0) | Some(1) => {}
+        Some(c) if c != 101 => {} // any exit status but the panic status; death by signal is None
         other => return Err(("abnormal-exit".into(), format!("{}: exit status {:?}", what, other))),
     }
     if exit_ok != o.ok_line {
@@ -281,7 +281,7 @@ fn check_tape(tape: &[u8], gates: &Gates, codes: &[String], stats: &mut Stats, c
             stats.class(&format!("{}.files", cmd));
         }
         match out.status {
-            Some(0) | Some(1) => {}
+            Some(c) if c != 101 => {} // any exit status but the panic status; death by signal is None
             other => return Err(fail(cmd, "abnormal-exit", format!("`{}` exits {:?}", cmd, other))),
         }
         if (out.status == Some(0)) != want_ok {
@@ -382,6 +382,62 @@ fn fixed_cases(rep: &mut Report, codes: &[String], gates: &Gates) {
     }
 }
 
+/// Invocations that report very many diagnostics (255, 256, 257, 512 faulty files next to a valid
+/// one, as files and as a directory; as many missing paths; a file with as many unmatched
+/// characters for `tokenize`): the channels must still agree - a failing run never exits 0.
+fn many_diagnostics(rep: &mut Report, codes: &[String]) {
+    let counts: Vec<usize> = vec![255, 256, 257, 512];
+    let out = run_items(&counts, 4, |n, stats| {
+        let dir = Scratch::new("c13many");
+        let sub = dir.path.join("set");
+        std::fs::create_dir_all(&sub).unwrap();
+        let mut paths = vec![];
+        for i in 0..*n {
+            let p = sub.join(format!("bad{:04}.st", i));
+            std::fs::write(&p, format!("PROGRAM pb{}\nVAR\nx : INT\nEND_VAR\nEND_PROGRAM\n", i).as_bytes()).unwrap();
+            paths.push(p.to_string_lossy().to_string());
+        }
+        let good = sub.join("good.st");
+        std::fs::write(&good, b"PROGRAM pgood\nVAR\nx : INT;\nEND_VAR\nx := 1;\nEND_PROGRAM\n").unwrap();
+        paths.push(good.to_string_lossy().to_string());
+        let fail = |kind: &str, detail: String| Failure::new("many-diagnostics", kind, detail, json!({"faulty_files": n}));
+        let mut invocations: Vec<(String, Vec<String>)> = vec![];
+        let mut a = vec!["check".to_string()];
+        a.extend(paths.clone());
+        invocations.push((format!("check {} faulty files + 1 valid", n), a));
+        invocations.push((format!("check <dir with {} faulty files + 1 valid>", n), vec!["check".into(), sub.to_string_lossy().to_string()]));
+        let mut m = vec!["check".to_string()];
+        for i in 0..*n {
+            m.push(dir.path.join(format!("missing{}.st", i)).to_string_lossy().to_string());
+        }
+        invocations.push((format!("check {} missing paths", n), m));
+        for (what, args) in invocations {
+            if let Some(o) = observe_check(&args) {
+                stats.case(true, hash_str(&what));
+                stats.class("many-diagnostics.check");
+                channels_agree(&o, codes, &what).map_err(|(k, d)| fail(&k, d))?;
+                if o.status == Some(0) {
+                    return Err(fail("exit-zero-on-failure", format!("{} exits 0", what)));
+                }
+            }
+        }
+        // echo / tokenize
+        let junk = dir.write("junk.st", "?".repeat(*n).as_bytes()).to_string_lossy().to_string();
+        for (cmd, args) in [("tokenize", vec!["tokenize".to_string(), junk.clone()]), ("echo", { let mut e = vec!["echo".to_string()]; e.extend(paths.clone()); e })] {
+            let out = run_cli(&args, None);
+            if out.timed_out {
+                continue;
+            }
+            stats.class(&format!("many-diagnostics.{}", cmd));
+            if out.status == Some(0) || out.status == Some(101) || out.status.is_none() {
+                return Err(fail("exit-zero-on-failure", format!("`{}` with {} problems exits {:?}", cmd, n, out.status)));
+            }
+        }
+        Ok(())
+    });
+    rep.add(out);
+}
+
 pub fn run(ctx: &Ctx) -> i32 {
     let clock = Clock::start();
     let mut rep = Report::new(
@@ -389,12 +445,13 @@ pub fn run(ctx: &Ctx) -> i32 {
         ctx.tier,
         ctx.seed,
         "exploration",
-        "sets of 1..4 generated files (valid / one planted semantic fault / syntax error / lexical error, disjoint names) given to `ironplcc check` as explicit files in canonical, reversed and rotated order, as a flat directory, and as directory + extra valid file in both orders; `echo` and `tokenize` on the same files; fixed cases: missing path, missing path + good file, empty directory, no arguments, unreadable file. Oracle per invocation: exit in {0,1}; exit 0 <=> stdout has the line OK <=> no error[P....] on stderr; every code is listed in problem-codes.csv; same exit for every argument order; directory == file list (exit and multiset of (code, basename, line, column)); echo / tokenize exit 0 <=> every file parses / tokenizes in-process. Non-trivial: >= 2 files, a directory, or a faulty file; distinct by invocation.",
+        "sets of 1..4 generated files (valid / one planted semantic fault / syntax error / lexical error, disjoint names) given to `ironplcc check` as explicit files in canonical, reversed and rotated order, as a flat directory, and as directory + extra valid file in both orders; `echo` and `tokenize` on the same files; fixed cases: missing path, missing path + good file, empty directory, no arguments, unreadable file; invocations with 255 / 256 / 257 / 512 diagnostics. Oracle per invocation: a normal exit (any status but the panic status 101, no death by signal); exit 0 <=> stdout has the line OK <=> no error[P....] on stderr; every code is listed in problem-codes.csv; same exit for every argument order; directory == file list (exit and multiset of (code, basename, line, column)); echo / tokenize exit 0 <=> every file parses / tokenizes in-process. Non-trivial: >= 2 files, a directory, or a faulty file; distinct by invocation.",
     );
     let gates = ctx.gates_for("C13");
     let off = gates.off_list();
     let codes = known_codes();
     fixed_cases(&mut rep, &codes, &gates);
+    many_diagnostics(&mut rep, &codes);
     let cases = ctx.tier.pick(4_000, 60_000);
     let out = run_tapes("C13", ctx.seed, ctx.threads, cases, 600, |tape, stats, counting| {
         let g = Gates::with_off(off.clone());
